@@ -5,7 +5,9 @@ From Helm Require Import Values.Tree Common.Assoc
   Misc.Panics Misc.PanicsStorage Misc.PanicsStorageProofs
   Misc.PanicsDeps Misc.PanicsDepsProofs Misc.PanicsIndex Misc.PanicsIndexProofs
   Misc.PanicsSort Misc.PanicsSortProofs Misc.PanicsSchema Misc.PanicsSchemaProofs
-  Values.Strvals Misc.PanicsStrvals Misc.PanicsStrvalsProofs Gen.C20Tables.
+  Values.Strvals Misc.PanicsStrvals Misc.PanicsStrvalsProofs Gen.C20Tables
+  Misc.PanicsSchemaCoalesce.
+From Helm Require Values.Coalesce.
 Import ListNotations.
 Local Open Scope string_scope.
 
@@ -89,6 +91,20 @@ Theorem C20_storage_read_list_deployed_refuted :
     is_panic (list_deployed_prefix nat 0 dec st) = true.
 Proof. exact (ex_intro _ _ (ex_intro _ _ list_deployed_prefix_panics)). Qed.
 Print Assumptions C20_storage_read_list_deployed_refuted.
+
+(* since 1478473 decodeRelease gives every decoded release an info object: a record without
+   one is listed with an empty status instead of crashing its readers *)
+Theorem C20_storage_read_decode_normalises :
+  forall (B : Type) (raw : B -> option srel) (b : B) (r : srel),
+    decode_release raw b = Some r -> sr_status r <> None.
+Proof. exact (@decode_release_has_info). Qed.
+Print Assumptions C20_storage_read_decode_normalises.
+
+Theorem C20_storage_read_list_deployed_normalised :
+  forall (B : Type) (empty : B) (raw : B -> option srel) (st : list (sobj B)),
+    no_panic (list_deployed_prefix B empty (decode_release raw) st).
+Proof. exact (@list_deployed_prefix_normalised_no_panic). Qed.
+Print Assumptions C20_storage_read_list_deployed_normalised.
 
 (* ---- C20_deps + C20_import_values: load (Validate) then ProcessDependencies ---- *)
 
@@ -248,6 +264,45 @@ Theorem C20_schema_walk_refuted :
     is_panic (validate_schema unit (fun _ _ => Ok true) false c values) = true.
 Proof. exact (ex_intro _ _ (ex_intro _ _ validate_schema_unchecked_panics)). Qed.
 Print Assumptions C20_schema_walk_refuted.
+
+(* was the unchecked assertion safe behind CoalesceValues (ToRenderValues)?  Yes when sibling
+   subcharts have distinct names at every level: coalescing (shared model Values/Coalesce.v)
+   leaves a table under every subchart's name, recursively, and the OLD walk cannot panic *)
+Theorem C20_schema_walk_behind_coalesce :
+  forall (S : Type) (schema_of : Coalesce.chart -> option S) (lib_validate : S -> vmap -> res bool)
+         (c : Coalesce.chart) (vals v : vmap),
+    uniq c -> Coalesce.coalesce_values_root c vals = Some v ->
+    slots (Coalesce.cdeps c) v /\
+    no_panic (validate_schema S lib_validate false (to_schart S schema_of c) v).
+Proof.
+  intros S so lv c vals v Hu H.
+  exact (conj (coalesce_makes_slots false c Hu vals v H)
+              (to_render_values_unchecked_safe S so lv c vals v Hu H)).
+Qed.
+Print Assumptions C20_schema_walk_behind_coalesce.
+
+Example C20_schema_walk_behind_coalesce_hyp_met :
+  uniq uniq_example /\ exists v, Coalesce.coalesce_values_root uniq_example [] = Some v.
+Proof. exact uniq_example_ok. Qed.
+Print Assumptions C20_schema_walk_behind_coalesce_hyp_met.
+
+(* ... and no in general: two sibling subcharts named alike plus a subchart called "global" —
+   the second sibling's coalesceGlobals pass replaces a grandchild's table by a scalar; the
+   values coalesce, the old walk panics on them (confirmed on the real pre-a1cf667 code), the
+   repaired walk returns an error *)
+Theorem C20_schema_walk_behind_coalesce_refuted :
+  exists c : Coalesce.chart,
+    (exists v, Coalesce.coalesce_values_root c [] = Some v) /\
+    match Coalesce.coalesce_values_root c [] with
+    | Some v => is_panic (validate_schema unit (fun _ _ => Ok true) false (to_schart unit (fun _ => None) c) v)
+    | None => false
+    end = true /\
+    match Coalesce.coalesce_values_root c [] with
+    | Some v => validate_schema unit (fun _ _ => Ok true) true (to_schart unit (fun _ => None) c) v
+    | None => Panic "no values"
+    end = Ok false.
+Proof. exact cex_refutes. Qed.
+Print Assumptions C20_schema_walk_behind_coalesce_refuted.
 
 (* ---- C20_strvals (stretch): the --set parsers over every byte string ---- *)
 
